@@ -409,9 +409,9 @@ let run_line c kt (st : st) (line : string) (impl_line : string) : string =
         | "parse" -> ( match nodeid_parse (unhx t.(2)) with Some x -> "ok " ^ hx x | None -> "err")
         | "new" ->
             let x = unhx t.(2) in
-            Printf.sprintf "raw=%s asref=%s from=%s eqraw=1 ser=%s disp=%s dbg=%s" (hx x) (hx x) (hx x)
+            Printf.sprintf "raw=%s asref=%s from=%s eqraw=1 ser=%s disp=%s dbg=%s dbgp=%s" (hx x) (hx x) (hx x)
               (hx (([ n_of_int 34 ] @ nodeid_ser x) @ [ n_of_int 34 ]))
-              (hx (nodeid_display x)) (hx (nodeid_debug x))
+              (hx (nodeid_display x)) (hx (nodeid_debug x)) (hx (nodeid_debug x))
         | "deser" -> (
             match nodeid_deser (unhx t.(2)) with Some x -> "ok " ^ hx x ^ " glue=1" | None -> "err glue=1")
         | _ -> "badcmd")
